@@ -49,6 +49,10 @@ class Robust(Part):
             raise
         if r.violated != "CostLen":
             raise MachineryError("the NoReset deviation no longer violates CostLen: the model has lost its teeth")
+        # TLAPS side-car (not the deciding mechanism): with the reset the cost-vector law is inductive for any number of batches and designs
+        proved = tlc.tlapm("proofs/RobustLaws.tla", ctx.scratch)
+        ctx.notes.append("tlapm proofs/RobustLaws.tla: %d obligations proved (reset keeps 'UserM + 1 costs, processed once' inductive; "
+                         "without the reset the invariant breaks)" % proved)
         return runs
 
     def cases(self, ctx):
